@@ -283,12 +283,8 @@ def run_record_end(rep, facts):
         ret = ir.peel(r.ret)
         ext = [c for c in r.calls if c[0].endswith("Extend>::extend") and self_field(c[1][0], 'buffer')]
         if cleared:
-            cls['complete'] = cls.get('complete', 0) + 1
-            if not ins:
-                bad.append("the pair buffer is cleared without inserting the pair")
+            cls['complete'] = cls.get('complete', 0) + 1     # how the pair reaches the map is C01's business (R1.1 / R1.2)
             continue
-        if ins:
-            bad.append("a pair is inserted but the pair buffer is kept")
         if rec is None:
             bad.append("an incomplete-pair return does not depend on rec_end")
         elif rec:
@@ -307,7 +303,7 @@ def run_record_end(rep, facts):
     if bad:
         rep.violation("R6.5", "parse_buffered/record-end-buffering", "; ".join(sorted(set(bad))), b.loc())
     elif set(cls) == {'complete', 'moved', 'kept'}:
-        rep.ok("R6.5", "parse_buffered/record-end-buffering", "incomplete pair: rec_end => buffer.extend(data), return []; else return data; complete pair => insert + clear (%s over %d paths)" % (cls, n), b.loc())
+        rep.ok("R6.5", "parse_buffered/record-end-buffering", "incomplete pair: rec_end => buffer.extend(data), return []; else return data; complete pair => pair buffer cleared (%s over %d paths)" % (cls, n), b.loc())
     else:
         rep.undecidable("R6.5", "parse_buffered/record-end-buffering", "outcome classes seen: %s" % cls, b.loc())
 
